@@ -788,10 +788,9 @@ class TOCSchemas:
         return self._load_json(cast(H5DatasetLike, self._raw[node_path]))
 
     def get(self, schema_ref: PluginRef):
-        try:
-            self[schema_ref]
-        except KeyError:
+        if schema_ref not in self:
             return None
+        return self[schema_ref]
 
     def keys(self):
         return set(self._schemas)
